@@ -165,6 +165,22 @@ def r_F20():
     return out.index('1:') > out.index('2:')
 
 
+def r_F21():
+    import prettyprinter as pp
+
+    class Pred21:
+        pass
+
+    def failing_pred21_printer(v, ctx):
+        raise KeyError('boom')
+    pp.register_pretty(predicate=lambda v: isinstance(v, Pred21))(failing_pred21_printer)
+    with warnings.catch_warnings(record=True) as w:
+        warnings.simplefilter('always')
+        pp.pformat([Pred21()])
+    heads = [str(x.message).split('raised an exception')[0] for x in w if 'raised an exception' in str(x.message)]
+    return not heads or not all('failing_pred21_printer' in h for h in heads)
+
+
 def r_K8():
     import prettyprinter as pp
     # ten fresh dicts: the place of the tuple key with a commented element depends on object identity, not on its value
